@@ -26,6 +26,7 @@ mod mon_c11;
 mod mon_c12;
 mod mon_c13;
 mod mon_c16;
+mod mon_c17;
 mod mon_c16_core;
 mod pool;
 mod ref_dfa;
@@ -163,6 +164,7 @@ fn main() {
         "C12" => mon_c12::run(&mut ctx),
         "C13" => mon_c13::run(&mut ctx),
         "C16" => mon_c16::run(&mut ctx),
+        "C17" => mon_c17::run(&mut ctx),
         _ => {
             eprintln!("unknown property {prop}");
             std::process::exit(2);
